@@ -23,6 +23,24 @@ NOTES = {
  'C16-s3': 'MISSED (dialog only driven with ordmin = 0); caught after a variant with ordmin = 2 was added',
  'C19-s3': 'MISSED (fresh tables for every call); caught after the reuse part (the same table objects handed to a second definition; caller tables must come back unchanged) was added',
  'C20-s3': 'MISSED (singular values of ordinary size only); caught after lines with a near-null and an exactly null singular value were added',
+ 'C01-s4': 'MISSED (integer-valued sampling rates only); caught after fs = 102.4 replaced 100',
+ 'C02-s4': 'MISSED (float / complex shape matrices only); caught after a kind with an integer-typed first setup was added',
+ 'C03-s4': 'caught as shipped by the version of C03 current at that time (non-default hc on the _MS classes); the sampling rates of C03 are now non-integer too',
+ 'C05-s4': 'MISSED (spectra of level 1e-2..1 only); caught after a coefficient family with a numerator of level 1e-8 was added',
+ 'C06-s4': 'MISSED (stored decomposition judged right after run() only); caught after it is judged again after the extractions',
+ 'C07-s4': 'MISSED (selected frequency always a list of float); caught after the form of the pick rotates (float / int list / int tuple / int array)',
+ 'C08-s4': 'MISSED (float records only); caught after int64 raw-count records under integer gains were added - which also exposed a genuine int64 overflow of the unchanged tree in the OTHER covariance method (defect 18, fixed in 8d930cb)',
+ 'C09-s4': 'MISSED by C09 (fresh algorithm object per criteria point) but caught as shipped by C15 (run twice must equal the isolated reference); C09 catches it too after a second run of the same object is compared',
+ 'C11-s4': 'MISSED (no pole just above the upper edge of the band); caught after symbols 10.51 and 10.202 were added to the cell catalogue',
+ 'C12-s4': 'MISSED (float64 records only); caught after int16 / int32 records rotate through the run route',
+ 'C13-s4': 'MISSED (records far below 2**22 channel-pair-samples); caught after one long record per estimator was added (lattice and delay part)',
+ 'C14-s4': 'MISSED by the quick tier (breakpoint detrend only in the thorough alphabet); caught after det(bp=half) moved into the quick alphabet',
+ 'C15-s4': 'MISSED (a fresh instance for every add); caught after the composite event re-add-the-same-instance-and-run was added',
+ 'C16-s4': 'MISSED (no click at x = 0.0); caught after picks and deselect-nearest at exactly 0 Hz were added',
+ 'C17-s4': 'MISSED (Hankel matrices of ordinary size only); caught after a level axis (1, 1e-9 on the records / 1e-18 on H) was added',
+ 'C18-s4': 'MISSED (a fresh array for every call); caught after the same array object is rescaled in place between two MAC calls',
+ 'C19-s4': 'MISSED (index corruptions renamed a label, never re-ordered rows); caught after the reorder-rows corruption (relaxed oracle: ValueError or a geometry aligned by label) was added',
+ 'C20-s4': 'MISSED (ordmin = 0 only); caught after a sub-lattice with ordmin 1 and 2 was added',
  'C20-s2': 'MISSED by the quick tier of the first version of C20 (CMIF with a frequency window only in the thorough tier); caught after the window was added to the quick tier',
 }
 def main():
